@@ -116,7 +116,7 @@ func props() []prop {
 			DesignRef:   "DESIGN.md §4 C07",
 			Assumptions: with("cancelling the system context before Start is not asserted beyond 'no hang'"),
 			Units: []unit{
-				{Check: "startstopnet", Pkg: "internal/actor", Shards: [2]int{6, 6}, Timeout: [2]time.Duration{10 * min, 40 * min}, CrashKey: "c07-crash", HangKind: "c07-hang", OnlyKinds: []string{"c07-", "harness-"}},
+				{Check: "startstopnet", Pkg: "internal/actor", Shards: [2]int{7, 7}, Timeout: [2]time.Duration{10 * min, 40 * min}, CrashKey: "c07-crash", HangKind: "c07-hang", OnlyKinds: []string{"c07-", "harness-"}},
 				{Check: "startstop", Pkg: "internal/actor", Shards: [2]int{8, 16}, Timeout: [2]time.Duration{6 * min, 40 * min}, CrashKey: "c07-crash", HangKind: "c07-hang", OnlyKinds: []string{"c07-", "harness-"}},
 				{Check: "startstopinject", Pkg: "internal/actor", Instr: []string{"internal/actor/system.go"}, Shards: [2]int{8, 16}, Timeout: [2]time.Duration{6 * min, 40 * min}, CrashKey: "c07-crash", HangKind: "c07-hang", OnlyKinds: []string{"c07-", "harness-"}},
 			},
@@ -131,7 +131,7 @@ func props() []prop {
 			Units: []unit{
 				{Check: "futures", Pkg: "internal/actor", Shards: [2]int{8, 16}, Timeout: [2]time.Duration{6 * min, 40 * min}, CrashKey: "c04-crash", HangKind: "c04-hang", OnlyKinds: []string{"c04-", "harness-"}},
 				{Check: "futuresinject", Pkg: "internal/actor", Instr: []string{"internal/actor/context.go", "internal/actor/system.go", "internal/future/future.go"}, Shards: [2]int{8, 16}, Timeout: [2]time.Duration{6 * min, 40 * min}, CrashKey: "c04-crash", HangKind: "c04-hang", OnlyKinds: []string{"c04-", "harness-"}},
-				{Check: "futuresrace", Pkg: "internal/actor", Race: true, Shards: [2]int{4, 16}, Timeout: [2]time.Duration{8 * min, 40 * min}, CrashKey: "c04-crash", HangKind: "c04-hang", OnlyKinds: []string{"c04-", "harness-", "data-race"}},
+				{Check: "futuresrace", Pkg: "internal/actor", Race: true, Instr: []string{"internal/actor/context.go", "internal/actor/system.go", "internal/future/future.go"}, Shards: [2]int{4, 16}, Timeout: [2]time.Duration{8 * min, 40 * min}, CrashKey: "c04-crash", HangKind: "c04-hang", OnlyKinds: []string{"c04-", "harness-", "data-race"}},
 			},
 		},
 		{
@@ -143,7 +143,7 @@ func props() []prop {
 			Assumptions: with("recipients(e) = actors that processed e or had e dead-lettered"),
 			Units: []unit{
 				{Check: "eventstream", Pkg: "internal/actor", Shards: [2]int{8, 16}, Timeout: [2]time.Duration{6 * min, 40 * min}, CrashKey: "c19-crash", OnlyKinds: []string{"c19-", "harness-"}},
-				{Check: "eventstreamrace", Pkg: "internal/actor", Race: true, Shards: [2]int{4, 16}, Timeout: [2]time.Duration{8 * min, 40 * min}, CrashKey: "c19-crash", OnlyKinds: []string{"c19-", "harness-", "data-race"}},
+				{Check: "eventstreamrace", Pkg: "internal/actor", Race: true, Instr: []string{"internal/actor/event_stream.go"}, Shards: [2]int{4, 16}, Timeout: [2]time.Duration{8 * min, 40 * min}, CrashKey: "c19-crash", OnlyKinds: []string{"c19-", "harness-", "data-race"}},
 			},
 		},
 		{
@@ -160,7 +160,7 @@ func props() []prop {
 		},
 		{
 			ID: "C05", Level: "exploration",
-			LevelText:   "A per-actor trace automaton (OnLaunch first in every incarnation, no second OnLaunch, OnKill before the own OnKilled, nothing after the own OnKilled unless a restart follows, OnLaunch sent by the parent to the restarted actor itself, behaviour stack reset, fresh instance with a provider, OnLaunch count == spawns + restarts, silent instance when ActorOf failed) runs over the complete recorded traces of restart-centred PRNG histories, the general histories and both enumerated supervision matrices, all executed on the real system in synctest bubbles.",
+			LevelText:   "A per-actor trace automaton (OnLaunch first in every incarnation, no second OnLaunch, OnKill before the own OnKilled, nothing after the own OnKilled unless a restart follows, OnLaunch sent by the parent to the restarted actor itself, behaviour stack reset, fresh instance with a provider, OnLaunch count == spawns + restarts, silent instance when ActorOf failed) runs over the complete recorded traces of restart-centred PRNG histories, the general histories and both enumerated supervision matrices, all executed on the real system in synctest bubbles. An enumerated unit (combinators) repeats the spawn / restart clauses for actors assembled with the library's own constructors (NewPrelaunchActor, NewPreRestartActor, NewRestartedActor, NewComplexCombinationActor over 1-3 parts) with the failing hook in every part.",
 			LevelNote:   "Trusted: recording behaviours (every message an actor's behaviour sees is logged with instance id and behaviour tag), synctest quiescence. The register->OnLaunch window of ActorOf (a message sent through a parsed ref overtaking OnLaunch) needs a preemption inside ActorOf and is only reachable by the inject tier, see DESIGN §3 D23.",
 			Technique:   "online-recorded per-actor traces checked offline by a trace automaton",
 			DesignRef:   "DESIGN.md §4 C05",
@@ -168,6 +168,7 @@ func props() []prop {
 			Units: []unit{
 				{Check: "launchwindow", Pkg: "internal/actor", Instr: []string{"internal/actor/context.go"}, Shards: [2]int{4, 16}, Timeout: [2]time.Duration{6 * min, 20 * min}, CrashKey: "c05-crash", HangKind: "c09-hang", OnlyKinds: []string{"c05-", "harness-"}},
 				{Check: "lifecycle", Pkg: "internal/actor", Shards: [2]int{8, 16}, Timeout: [2]time.Duration{6 * min, 40 * min}, CrashKey: "c05-crash", OnlyKinds: []string{"c05-", "harness-"}},
+				{Check: "combinators", Pkg: "internal/actor", Shards: [2]int{8, 8}, Timeout: [2]time.Duration{5 * min, 10 * min}, CrashKey: "c05-crash", OnlyKinds: []string{"c05-", "harness-"}},
 				{Check: "histories", Pkg: "internal/actor", Shards: [2]int{8, 16}, Timeout: [2]time.Duration{6 * min, 40 * min}, OnlyKinds: []string{"c05-"}},
 				{Check: "supmatrix", Pkg: "internal/actor", Shards: [2]int{8, 16}, Timeout: [2]time.Duration{5 * min, 30 * min}, OnlyKinds: []string{"c05-"}},
 				{Check: "unstuck", Pkg: "internal/actor", Shards: [2]int{8, 16}, Timeout: [2]time.Duration{5 * min, 30 * min}, OnlyKinds: []string{"c05-"}},
@@ -175,7 +176,7 @@ func props() []prop {
 		},
 		{
 			ID: "C06", Level: "exploration",
-			LevelText:   "Kill-centred PRNG histories on trees of up to 20 actors (any node, poison/immediate, repeated and concurrent kills at one virtual instant, kills racing spawns in the victim, watchers registered before/at/after the kill, every actor holding subscriptions and Loop jobs) run on the real system in synctest bubbles; offline monitors over the single observer's event order and the per-actor traces require: descendants reported terminated before ancestors, exactly one ActorKilledEvent per termination, exactly one OnKilled at the parent and at each registered watcher, none elsewhere; at quiescence terminated paths are gone from the registry, FindActor, both event-stream tables, their jobs stay silent for 3 intervals of virtual time, and the name can be spawned again.",
+			LevelText:   "Kill-centred PRNG histories on trees of up to 20 actors (any node, poison/immediate, repeated and concurrent kills at one virtual instant, kills racing spawns in the victim, watchers registered before/at/after the kill, every actor holding subscriptions and Loop jobs) run on the real system in synctest bubbles; offline monitors over the single observer's event order and the per-actor traces require: descendants reported terminated before ancestors, exactly one ActorKilledEvent per termination, exactly one OnKilled at the parent and at each registered watcher, none elsewhere; at quiescence terminated paths are gone from the registry, FindActor, both event-stream tables, their jobs stay silent for 3 intervals of virtual time, and the name can be spawned again. A real-network unit (watchnet) puts watchers on three systems - under the same path on each and under distinct paths - and requires exactly one OnKilled naming the target at every watcher whose Watch is in force, none elsewhere.",
 			LevelNote:   "Trusted: the observer's mailbox order equals Publish order for events published by one actor; stamps of unrelated observers are never compared. Virtual time makes 'no later firing' exact.",
 			Technique:   "offline ordering / exactly-once checkers over recorded event logs + hooked-state release checks at quiescence",
 			DesignRef:   "DESIGN.md §4 C06",
@@ -183,6 +184,7 @@ func props() []prop {
 			Units: []unit{
 				{Check: "killtree", Pkg: "internal/actor", Shards: [2]int{8, 16}, Timeout: [2]time.Duration{6 * min, 40 * min}, CrashKey: "c06-crash", OnlyKinds: []string{"c06-", "tree-", "harness-"}},
 				{Check: "histories", Pkg: "internal/actor", Shards: [2]int{8, 16}, Timeout: [2]time.Duration{6 * min, 40 * min}, OnlyKinds: []string{"c06-", "tree-"}},
+				{Check: "watchnet", Pkg: "internal/actor", Shards: [2]int{8, 8}, Timeout: [2]time.Duration{8 * min, 10 * min}, CrashKey: "c06-crash", OnlyKinds: []string{"c06-", "harness-"}},
 			},
 		},
 		{
@@ -201,20 +203,21 @@ func props() []prop {
 		},
 		{
 			ID: "C09", Level: "exploration",
-			LevelText:   "Enumerated failure cells (queued bursts with the failure at every position, every decision and strategy, escalation chains to the top, failing restart hooks) plus PRNG histories of repeated and concurrent sibling failures are executed on the real system in a synctest bubble. At the bubble's exact quiescence the monitors require: no registered non-zombie actor paused or half-stopped, probes sent afterwards processed by survivors and dead-lettered for the dead, mail queued behind the failing message delivered in order (immediate) or drained first (graceful), zombies run no user code, publish no termination, and are released by Kill; a cell that cannot reach quiescence or whose Stop never returns is a hang.",
+			LevelText:   "Enumerated failure cells (queued bursts with the failure at every position, every decision and strategy, escalation chains to the top, failing restart hooks) plus PRNG histories of repeated and concurrent sibling failures are executed on the real system in a synctest bubble. At the bubble's exact quiescence the monitors require: no registered non-zombie actor paused or half-stopped, probes sent afterwards processed by survivors and dead-lettered for the dead, mail queued behind the failing message delivered in order (immediate) or drained first (graceful), zombies run no user code, publish no termination, and are released by Kill (also for actors assembled with the library's combinators, with the failing restart hook in every part); a cell that cannot reach quiescence or whose Stop never returns is a hang.",
 			LevelNote:   "Trusted: synctest quiescence (Wait returns only when every goroutine of the bubble is durably blocked), the reference model of expected fates, the 60 s real-time watchdog per cell (cells normally take milliseconds).",
 			Technique:   "enumerated fault matrix + PRNG fault sequences on the real system in virtual time; probe-after-quiescence and paused/zombie invariants on hooked state",
 			DesignRef:   "DESIGN.md §4 C09",
 			Assumptions: with("liveness is restated as: reaches quiescence and answers a probe sent after quiescence"),
 			Units: []unit{
 				{Check: "unstuck", Pkg: "internal/actor", Shards: [2]int{8, 16}, Timeout: [2]time.Duration{5 * min, 30 * min}, CrashKey: "c09-crash", HangKind: "c09-hang", OnlyKinds: []string{"c09-", "harness-"}},
+				{Check: "combinators", Pkg: "internal/actor", Shards: [2]int{8, 8}, Timeout: [2]time.Duration{5 * min, 10 * min}, CrashKey: "c09-crash", HangKind: "c09-hang", OnlyKinds: []string{"c09-"}},
 				{Check: "supmatrix", Pkg: "internal/actor", Shards: [2]int{8, 16}, Timeout: [2]time.Duration{5 * min, 30 * min}, CrashKey: "c09-crash", HangKind: "c09-hang", OnlyKinds: []string{"c09-"}},
 				{Check: "histories", Pkg: "internal/actor", Shards: [2]int{8, 16}, Timeout: [2]time.Duration{6 * min, 40 * min}, CrashKey: "c09-crash", HangKind: "c09-hang", OnlyKinds: []string{"c09-"}},
 			},
 		},
 		{
 			ID: "C08", Level: "exploration",
-			LevelText:   "The full supervision matrix is enumerated (shapes x failure sites x panic/Failed x strategies x decisions, Escalate cells expanded through levels 2 and 3 up to the system default) and every cell is executed on the real actor system inside a synctest bubble, whose Wait() is an exact quiescence oracle; the observed per-actor traces, events and registry are compared with an executable reference model of which actors are targets and what each directive does to them (decision-maker call count, restart/stop/resume effect, untouched siblings, failing message handled once).",
+			LevelText:   "The full supervision matrix is enumerated (shapes x failure sites x panic/Failed x strategies x decisions, Escalate cells expanded through levels 2 and 3 up to the system default; 48 cells in which a sibling of the failing actor was killed and re-created under its name beforehand) and every cell is executed on the real actor system inside a synctest bubble, whose Wait() is an exact quiescence oracle; the observed per-actor traces, events and registry are compared with an executable reference model of which actors are targets and what each directive does to them (decision-maker call count, restart/stop/resume effect, untouched siblings, failing message handled once).",
 			LevelNote:   "Trusted: the reference model in c08_supmatrix_test.go (vfModel), synctest quiescence. A user-supplied *system* strategy that escalates at the root is outside the stated quantifier and not generated.",
 			Technique:   "enumerated fault matrix on the real system in virtual time, reference-model comparison of recorded traces",
 			DesignRef:   "DESIGN.md §4 C08",
